@@ -495,6 +495,16 @@ def run_check(prop, tier, obligations, encoded_funcs=(), stubs=(), bounds=(), ou
 def run_replay(prop, path, obligations):
     data = json.load(open(path))
     for ob in obligations:
+        if ob.name == data["obligation"] and ob.kind != "symx":
+            # lemma / table obligations are deterministic: re-run and look for the same label
+            r = ob.harness(**ob.case)
+            same = [v for v in r.get("violations", []) if v["label"] == data["label"]]
+            if same:
+                print(f"VIOLATION property={prop} replay={path}")
+                print("  " + str(same[0].get("replay_detail", ""))[:400])
+                return EXIT_VIOLATION
+            print("replay did not reproduce")
+            return EXIT_OK
         if ob.name == data["obligation"]:
             vals = _unjson_values(data["values"])
             rep = _replay(ob, vals)
